@@ -163,6 +163,7 @@ type checkOpts struct {
 	only     string // restrict to one function key (debugging)
 	verbose  bool
 	keep     bool
+	evidenceDir string
 }
 
 type obRecord struct {
@@ -175,9 +176,13 @@ type obRecord struct {
 func runCheck(o checkOpts) int {
 	start := time.Now()
 	eng, err := loadEngine(o.repo, o.verifDir)
-	evidencePath := filepath.Join(o.verifDir, "evidence", o.prop+".json")
+	evDir := filepath.Join(o.verifDir, "evidence")
+	if o.evidenceDir != "" {
+		evDir = o.evidenceDir
+	}
+	evidencePath := filepath.Join(evDir, o.prop+".json")
 	os.MkdirAll(filepath.Dir(evidencePath), 0o755)
-	replayDir := filepath.Join(o.verifDir, "evidence", "replays", o.prop)
+	replayDir := filepath.Join(evDir, "replays", o.prop)
 	os.RemoveAll(replayDir)
 	os.MkdirAll(replayDir, 0o755)
 	if err != nil {
@@ -211,6 +216,9 @@ func runCheck(o checkOpts) int {
 		}
 	}
 	workRoot := filepath.Join(o.verifDir, ".work", o.prop)
+	if o.evidenceDir != "" {
+		workRoot = filepath.Join(o.evidenceDir, ".work", o.prop)
+	}
 	os.RemoveAll(workRoot)
 	os.MkdirAll(workRoot, 0o755)
 	sem := make(chan struct{}, runtime.NumCPU())
